@@ -29,6 +29,8 @@ def analyse(prog, fi, method, pY, pR, pbr, pm):
     """the returned Hankel / Toeplitz matrix as a term of sa/hankdom.py, for one method, uncertainty off"""
     from .. import hankdom, seqdom
     it = hankdom.Interp(prog, roles={pY: ("rec", "all"), pR: ("rec", "ref")})
+    # (the method label written into the body first: a dispatch table indexed with it becomes the call of one builder)
+    fi = astq.PrunedFn(fi, {pm: method, "calc_unc": False}, subst=True)
     rets = it.run(fi, {pm: seqdom.K(method), "calc_unc": seqdom.K(False), pbr: seqdom.I(P.s(pbr))})
     out = []
     for v, n in rets:
@@ -217,7 +219,9 @@ def method_rule(prog, run):
             if isinstance(t, ast.Compare) and len(t.ops) == 1 and isinstance(t.ops[0], ast.Is) and astq.dump(t.left) == astq.dump(e.orelse):
                 return [astq.src(e.orelse), astq.src(e.body)]
             return None
-        return [astq.src(e)]
+        if isinstance(e, (ast.Name, ast.Constant)) or (isinstance(e, ast.Attribute) and astq.src(e).replace(".", "").isidentifier()):
+            return [astq.src(e)]
+        return None         # a computed value (a look-up in an option dictionary that was not resolved, a call): not judged
     nm_ = 0
     for ci, m in prog.class_methods("pyoma2.algorithms", "run"):
         for callee, param in ((fi.qual, pm), ("pyoma2.functions.ssi.SSI_multi_setup", "method_hank")):
@@ -226,13 +230,13 @@ def method_rule(prog, run):
                 nm_ += 1
                 fm = rel(prog.mods[m.mod].path)
                 if a is None:
-                    run.ob("R-method", m.qual, f"{callee.split('.')[-1]}.{param}", None if param not in rec["missing"] else False, f"`{param}` is not passed / not traceable", file=fm, node=rec["call"])
+                    run.ob("R-method", m.qual, f"{callee.split('.')[-1]}.{param}", False if (param in rec["missing"] and rec["complete"]) else None, f"`{param}` is not passed / not traceable", file=fm, node=rec["call"])
                     continue
                 pr = priority(a)
                 ok = None
                 if pr is not None:
                     ok = pr[0] == "self.run_params.method" and all(x in ("self.run_params.method", "self.method") for x in pr)
-                run.ob("R-method", m.qual, f"{callee.split('.')[-1]}.{param}", ok, f"`{astq.src(a, 70)}`: precedence {pr}" + ("" if ok else " - the method chosen in the run parameters is not the one that is built"),
+                run.ob("R-method", m.qual, f"{callee.split('.')[-1]}.{param}", ok, f"`{astq.src(a, 70)}`: precedence {pr}" + ("" if ok else (" - the method chosen in the run parameters is not the one that is built" if ok is False else " - form not recognised")),
                        witness=str(pr), file=fm, node=rec["call"])
     if not nm_:
         run.ob("R-method", "pyoma2.algorithms", "callers", None, "no run() method calling the Hankel builder found")
